@@ -36,6 +36,11 @@ CHECKS = {
             "Every token string of up to N tokens (quick 3, thorough 4) over a 26-token alphabet (1/2/3/4-byte characters, LF, CR, CRLF, BOM, indicators, anchors, tags, block scalars, document markers) x 5 owned targets: from_str, from_slice, with_deserializer_from_str/slice, from_reader and with_deserializer_from_reader must return equal values or errors of the same variant at the same line/column, the reader under EVERY partition of the input bytes into read calls for inputs up to 12 (thorough 16) bytes and under chunk sizes 1,2,3,5,8,4096 beyond; a leading BOM is ignored; &str targets succeed exactly for verbatim single-line scalars, point into the input buffer and equal the owned result; visit_borrowed_str is never called for reader input. A 16-document corpus of longer inputs rides along.",
             "Trusted: the scheduled reader (returns exactly the scheduled slice, never 0 before EOF); error identity = variant name after without_snippet + line/column.",
             "DESIGN.md §3 C09"),
+    "C10": ("fault_enumeration",
+            "exhaustive fault-position enumeration on the real reader/writer paths: every read call index, every byte offset, every mid-character EOF, cap values around the input length, every write call index",
+            "For each of 33 corpus documents (scalars, containers, streams whose every line-prefix is a complete document, multi-document streams, null-like first documents, trailing comment regions, multi-byte tails, BOM) x chunkings {1, 3, whole} x entry points {from_reader, with_deserializer_from_reader, read iterator} x error kinds: the k-th read fails for every k, the reader fails after every byte offset, and the stream ends inside every multi-byte character. If the instrumented reader really returned the error, single-document entry points must return Err (never a value from the truncated prefix) and the iterator's Ok items must be a prefix of the fault-free items, contain at least one Err, and end. max_reader_input_bytes in {0,1,n-2..n+2}: over the cap -> Err, within -> identical to no cap; endless readers must fail after pulling at most cap + 32 KiB. Writer: for every value of the C13 corpus (<=3 nodes quick, <=4 thorough) the k-th write fails for every k: Err(IO) with the injected kind, accepted bytes a prefix of the fault-free output.",
+            "Trusted: the instrumented reader/writer (they keep failing after the first injected error). Conventions: the cap applies to the decoded text (a BOM eaten by the decoder is not counted); which error variant reports a reader failure is counted but not judged (the statement demands 'an error').",
+            "DESIGN.md §3 C10"),
     "C12": ("model_checking",
             "bounded-exhaustive enumeration of scalar values x positions x serializer option vectors, identity round-trip oracle on the real serializer and deserializer",
             "All strings up to the length bound over a 52-symbol adversarial alphabet plus 150 look-alike words, in 12 positions (root, sequence item, nested item, map value/key, flow item/value/key, struct field, newtype/tuple variant payload, map inside sequence) under every combination of quote_all, yaml_12, prefer_block_scalars, compact_list_indent, tagged_enums x indent steps x two fold widths; all integer boundaries of every width; a complete f32 sub-lattice (thorough: all 2^32 patterns) and an f64 boundary lattice; chars, unit, options, byte arrays. Each value is serialized by the real serializer, must scan as exactly one document in saphyr-parser and must read back as the identical value; emitted floats must match the YAML float grammar.",
